@@ -142,10 +142,11 @@ def main():
 
     # ---- 2. code side: rebuild from /repo's working tree, run harness + driver ---------------
     try:
-        libdir, key, dt_lib = vlib.build_repo(log)
+        asan = bool(spec.get("asan"))
+        libdir, key, dt_lib = vlib.build_repo(log, asan=asan)
         exes = {}
         for h in spec["harnesses"]:
-            exes[h] = vlib.build_harness(h, libdir, log, extra=spec.get("harness_flags", ""))
+            exes[h] = vlib.build_harness(h, libdir, log, extra=spec.get("harness_flags", "") + (" " + vlib.ASAN if asan else ""))
     except vlib.BuildError as e:
         log(str(e))
         log(f"[{pid}] cannot build /repo's working tree or the harness against it")
@@ -188,7 +189,12 @@ def main():
     for r in results:
         cfg = r["cfg"]
         if r["rc"] != 0:
-            failures.append({"kind": "harness-crash", "path": f"{pid}/harness/{cfg['tag']}/rc{r['rc']}",
+            prog = ""
+            try:
+                prog = open(r["casefile"] + ".progress").read().strip().replace(" ", "_")
+            except Exception:
+                pass
+            failures.append({"kind": "harness-crash", "path": f"{pid}/crash/{prog or cfg['tag']}/rc{r['rc']}",
                              "config": cfg, "info": r["harness_out"][-1500:], "case_index": -1, "case": ""})
             continue
         if r.get("driver_rc", 0) != 0:
